@@ -159,6 +159,11 @@ def length(t) -> dict:
         for p in t[3]:
             d["|" + p.split(":", 1)[1] + "|"] = d.get("|" + p.split(":", 1)[1] + "|", 0) + 1
         return _clean(d)
+    if h == "cat":
+        d = dict(length(t[1]))
+        for k, v in length(t[2]).items():
+            d[k] = d.get(k, 0) + v
+        return _clean(d)
     if h == "sub":
         d = {}
         for p in t[2]:
@@ -334,6 +339,18 @@ class Machine:
                 return False
             if all(c > 0 for c in d.values()) and all(k.startswith("|a") or k in ("|tmpl|", "1") for k in d):
                 return True
+            if all(c > 0 for c in d.values()):
+                # a sum of sizes: non-zero iff some summand is non-zero; one case variable per size symbol
+                res = False
+                for k in sorted(d):
+                    if k.startswith("|a") or k in ("|tmpl|", "1"):
+                        res = True
+                        continue
+                    key = "nonzero:" + k
+                    if key not in self.case_vars:
+                        self.case_vars[key] = self.ch.choose(2, f"{label}:{k}") == 1
+                    res = res or self.case_vars[key]
+                return res
             key = "nonzero:" + repr(sorted(d.items()))
             if key not in self.case_vars:
                 self.case_vars[key] = self.ch.choose(2, label) == 1
